@@ -1101,4 +1101,145 @@ Proof.
   rewrite C2. exact Hb.
 Qed.
 
+(* ---------- C07 / C08: contexts, shutdown, late calls ---------- *)
+
+(* what is in a reply channel was put there by the monitor *)
+Definition inv_replies (s : sys) : Prop :=
+  forall rid r, lookup rid (s_replies s) = Some r -> In (AReply rid r) (mon_hist (s_log s)).
+
+Lemma step_log_ext : forall s l s', step s l = Some s' -> exists es, s_log s' = s_log s ++ es.
+Proof.
+  intros s l s' H. destruct l; cbn [System.step] in H.
+  - unfold System.api_start in H. destruct (lookup tid (s_thr s)); [discriminate|].
+    destruct op; unfold start_enqueue in H; inv_step H; (eexists; log_ext).
+  - unfold System.api_act in H. inv_step H; (eexists; log_ext).
+  - unfold System.mon_recv_step in H. inv_step H; rewrite mon_take_log; (eexists; log_ext).
+  - unfold System.mon_act_step in H. inv_step H; (eexists; log_ext).
+  - unfold System.cb_take_step in H. inv_step H; (eexists; log_ext).
+  - unfold cb_return_step in H. inv_step H; (eexists; log_ext).
+  - unfold cb_ack_step in H. inv_step H; (eexists; log_ext).
+  - destruct (s_main s); [discriminate|]. inversion H. eexists. reflexivity.
+  - unfold cancel_call in H. inv_step H; (eexists; log_ext).
+Qed.
+
+Lemma inv_replies_step : forall s l s', inv_replies s -> step s l = Some s' -> inv_replies s'.
+Proof.
+  intros s l s' I H rid r Hl.
+  destruct (step_log_ext s l s' H) as [es Hes].
+  pose proof (non_monitor_frame s l s' H) as F.
+  assert (Keep : s_replies s' = s_replies s -> In (AReply rid r) (mon_hist (s_log s'))).
+  { intros E. rewrite Hes, mon_hist_app. apply in_or_app. left. apply I. rewrite <- E. exact Hl. }
+  destruct l; try (apply Keep; apply mon_part_eq in F; tauto).
+  - (* LMonRecv *)
+    apply Keep. cbn [System.step] in H. unfold System.mon_recv_step in H. inv_step H;
+    match goal with |- s_replies (mon_take _ _ _ ?s1 ?st ?i) = _ =>
+      destruct (mon_take_fields s1 st i) as [_ [_ [_ [Fr _]]]]; rewrite Fr; reflexivity end.
+  - (* LMonAct *)
+    cbn [System.step] in H. unfold System.mon_act_step in H.
+    destruct (s_mon s) as [|st pend|]; try discriminate H. destruct pend as [|a rest]; [discriminate H|].
+    destruct a; inv_step H; try (apply Keep; reflexivity).
+    cbn in Hl. rewrite lookup_update in Hl. cbn. rewrite mon_hist_app. apply in_or_app.
+    destruct (rid =? rid0) eqn:E1.
+    + apply N.eqb_eq in E1. subst. inversion Hl; subst. right. left. reflexivity.
+    + left. apply I. exact Hl.
+Qed.
+
+(* C07: a blocking report returns nil only if the monitor answered nil on its
+   channel - hence (sys_reply_after_store_l) only after the store *)
+Theorem nil_return_needs_reply_l : forall inits watching s0 ls s tid t arm s' t',
+  snd (sys_init stack verify p inits watching) = Ok s0 -> run s0 ls = Some s ->
+  lookup tid (s_thr s) = Some t -> t_pc t = PAwaitReply ->
+  api_act s tid arm = Some s' -> lookup tid (s_thr s') = Some t' -> t_pc t' = PDone RetNil ->
+  In (AReply tid RNil) (mon_hist (s_log s)).
+Proof.
+  intros inits watching s0 ls s tid t arm s' t' H0 Hr Ht Hpc Ha Ht' Hpc'.
+  assert (I : inv_replies s).
+  { apply (run_inv inv_replies inv_replies_step ls s0 s); [|exact Hr].
+    intros rid r Hl. unfold sys_init in H0. cbn [snd] in H0.
+    destruct (cr_out (config_init stack verify p inits watching)) as [[v st]| |]; try discriminate.
+    inversion H0; subst. discriminate Hl. }
+  apply I. unfold System.api_act in Ha. rewrite Ht, Hpc in Ha.
+  destruct (arm =? 0).
+  - destruct (t_cancel t); [|discriminate]. inversion Ha; subst. cbn in Ht'.
+    rewrite lookup_update, N.eqb_refl in Ht'. inversion Ht'; subst. discriminate Hpc'.
+  - destruct (lookup tid (s_replies s)) as [r|]; [|discriminate]. inversion Ha; subst. cbn in Ht'.
+    rewrite lookup_update, N.eqb_refl in Ht'. inversion Ht'; subst. cbn in Hpc'.
+    destruct r; try discriminate. reflexivity.
+Qed.
+
+(* C07 blocking_ctx_returns / C08: a call whose context has ended can return
+   at once, wherever it stands (the offering select does so by itself when the
+   context is cancelled: cancel_call) *)
+Theorem cancelled_call_returns_l : forall (s : sys) tid t,
+  lookup tid (s_thr s) = Some t -> t_cancel t = true ->
+  match t_pc t with
+  | PDone _ => True
+  | POffer _ => False          (* cannot be: cancelling an offering call completes it *)
+  | _ => exists s' r, api_act s tid 0 = Some s' /\ lookup tid (s_thr s') = Some (mkThr (t_op t) (PDone r) true)
+  end \/ (exists m, t_pc t = POffer m).
+Proof.
+  intros s tid t Hl Hc. destruct (t_pc t) eqn:Epc; try (left; exact I); try (right; eauto; fail);
+    left; unfold System.api_act; rewrite Hl, Epc; cbn; rewrite Hc;
+    eexists; eexists; (split; [reflexivity|]); cbn; rewrite lookup_update, N.eqb_refl, Hc; reflexivity.
+Qed.
+
+Theorem cancel_offering_returns_l : forall (s : sys) tid t m,
+  lookup tid (s_thr s) = Some t -> t_pc t = POffer m -> t_cancel t = false ->
+  exists s' r, cancel_call s tid = Some s' /\ lookup tid (s_thr s') = Some (mkThr (t_op t) (PDone r) true).
+Proof.
+  intros s tid t m Hl Hpc Hc. unfold cancel_call. rewrite Hl, Hc, Hpc.
+  eexists. eexists. split; [reflexivity|]. cbn. rewrite lookup_update, N.eqb_refl. reflexivity.
+Qed.
+
+(* C08 shutdown: once the Config context is cancelled (or the last watcher is
+   Done: pend = [AExit] by mon_recv) the monitor, as soon as it is at its
+   select, leaves in two steps of its own, signalling monDone; the callback
+   goroutine leaves once the queue is drained *)
+Theorem shutdown_monitor_l : forall (s : sys) st,
+  s_main s = true -> s_mon s = MRun st [] ->
+  exists s2, run s [LMonRecv RCtx; LMonAct false] = Some s2 /\ s_mon s2 = MExited /\ s_done s2 = true.
+Proof.
+  intros s st Hm Em. cbn [System.run System.step]. unfold System.mon_recv_step. rewrite Em, Hm.
+  unfold mon_take. cbn [mon_recv split_verifies]. cbn.
+  eexists. split; [reflexivity|]. cbn. auto.
+Qed.
+
+Theorem shutdown_callbacks_l : forall (s : sys) cst,
+  s_done s = true -> s_cb s = CRun cst [] -> s_cbq s = [] ->
+  exists s', cb_take_step s = Some s' /\ s_cb s' = CExited.
+Proof.
+  intros s cst Hd Ec Eq. unfold System.cb_take_step. rewrite Ec, Eq, Hd. eexists. split; reflexivity.
+Qed.
+
+(* and while something is queued the callback goroutine can always take it *)
+Theorem callbacks_drain_l : forall (s : sys) cst ev rest,
+  s_cb s = CRun cst [] -> s_cbq s = ev :: rest -> exists s', cb_take_step s = Some s'.
+Proof.
+  intros s cst ev rest Ec Eq. unfold System.cb_take_step. rewrite Ec, Eq.
+  destruct (cb_step on_new on_err cst ev). eexists. reflexivity.
+Qed.
+
+(* C08 late_calls_fail: after the monitor has exited, RegisterCallback returns
+   nil and an unregister function (also when called again) returns false, at
+   once; nothing is ever received from a reporter again, so a report or Done
+   ends exactly when its context does (cancel_offering_returns_l); an
+   EnableVerification request is never answered and ends with its context
+   (cancelled_call_returns_l) *)
+Theorem late_calls_fail_l : forall (s : sys) tid op s',
+  s_done s = true -> s_mon s = MExited -> api_start s tid op = Some s' ->
+  match op with
+  | OpRegister _ _ => exists t, lookup tid (s_thr s') = Some t /\ t_pc t = PDone RetRegNil
+  | OpUnregister _ => exists t, lookup tid (s_thr s') = Some t /\ t_pc t = PDone (RetBool false)
+  | _ => True
+  end /\ (forall src, mon_recv_step s' src = None).
+Proof.
+  intros s tid op s' Hd Em H.
+  assert (Em' : s_mon s' = MExited).
+  { apply api_start_frame in H. destruct H as [F _]. apply mon_part_eq in F. destruct F as [F1 _]. rewrite F1. exact Em. }
+  split; [|intros src; unfold System.mon_recv_step; rewrite Em'; reflexivity].
+  unfold System.api_start in H. destruct (lookup tid (s_thr s)); [discriminate|].
+  destruct op; try exact I; unfold start_enqueue in H; cbn in H; rewrite Em, Hd in H; inv_step H;
+    cbn; eexists; rewrite lookup_update, N.eqb_refl; split; reflexivity.
+Qed.
+
 End Proofs.
